@@ -111,6 +111,12 @@ fn witnesses() -> Vec<(&'static str, &'static str, &'static str)> {
         ("struct-instance-vs-user-struct", "struct Box[T] { v: T }\nstruct Box__int32 { w: string }\nfn main() { let p = Box { v: 1 }; let q = Box__int32 { w: \"w\" }; string_println(int32_to_string(p.v) + q.w) }\n", "1w\n"),
         ("enum-instance-vs-user-enum", "enum Opt[T] { None, Some(T) }\nenum Opt__int32 { Some(string), None }\nfn main() { let a: Opt[int32] = Opt::Some(1); let b = Opt__int32::Some(\"s\"); let x = match a { Opt::Some(n) => n, Opt::None => 0 }; let y = match b { Opt__int32::Some(t) => t, Opt__int32::None => \"none\" }; string_println(int32_to_string(x) + y) }\n", "1s\n"),
         ("enum-instance-vs-user-enum-variants-in-the-same-order", "enum Opt[T] { None, Some(T) }\nenum Opt__int32 { None, Some(string) }\nfn main() { let a: Opt[int32] = Opt::Some(1); let b = Opt__int32::Some(\"s\"); let x = match a { Opt::Some(n) => n, Opt::None => 0 }; let y = match b { Opt__int32::Some(t) => t, Opt__int32::None => \"none\" }; string_println(int32_to_string(x) + y) }\n", "1s\n"),
+        // two instances of one generic *type* whose names are spelled alike: requested one after the other, and the second
+        // requested while the first is still being built (it occurs in the first's own fields)
+        ("two-type-instances-of-one-spelling", "struct X { a: int32 }\nstruct X__X { a: int32 }\nstruct P[A, B] { a: A, b: B }\nfn main() { let p: P[X, X__X] = P { a: X { a: 1 }, b: X__X { a: 2 } }; let q: P[X__X, X] = P { a: X__X { a: 3 }, b: X { a: 4 } }; string_println(int32_to_string(p.a.a * 1000 + p.b.a * 100 + q.a.a * 10 + q.b.a)) }\n", "1234\n"),
+        ("two-type-instances-of-one-spelling-one-inside-the-other", "struct X { a: int32 }\nstruct X__X { a: int32 }\nenum Flip[A, B] { End(A, B), More(A, Flip[B, A]) }\nfn depth[A, B](f: Flip[A, B]) -> int32 { match f { Flip::End(a, b) => 0, Flip::More(a, r) => 1 + depth(r) } }\nfn main() { let e: Flip[X__X, X] = Flip::End(X__X { a: 1 }, X { a: 2 }); let m: Flip[X, X__X] = Flip::More(X { a: 3 }, e); string_println(int32_to_string(depth(m))) }\n", "1\n"),
+        ("two-type-instances-of-one-spelling-one-inside-the-other-struct", "struct X { a: int32 }\nstruct X__X { a: int32 }\nenum Opt[T] { Non, Som(T) }\nstruct Flip[A, B] { a: A, next: Opt[Flip[B, A]] }\nfn main() { let e: Flip[X__X, X] = Flip { a: X__X { a: 1 }, next: Opt::Non }; let m: Flip[X, X__X] = Flip { a: X { a: 3 }, next: Opt::Som(e) }; string_println(int32_to_string(m.a.a)) }\n", "3\n"),
+        ("instance-of-a-type-named-like-an-instance-inside-it", "struct X { a: int32 }\nstruct Y { a: int32 }\nstruct Pair__X[T] { t: T }\nstruct Pair[A, B] { a: A, p: Pair__X[B] }\nfn main() { let v: Pair[X, Y] = Pair { a: X { a: 1 }, p: Pair__X { t: Y { a: 2 } } }; string_println(int32_to_string(v.a.a * 10 + v.p.t.a)) }\n", "12\n"),
         ("two-instances-of-one-spelling", "struct X__B_Y { a: int32 }\nstruct Z { a: int32 }\nstruct X { a: int32 }\nstruct Y__B_Z { a: int32 }\nfn first[A, B](a: A, b: B) -> A { a }\nfn main() { let p = first(X__B_Y { a: 1 }, Z { a: 2 }); let q = first(X { a: 3 }, Y__B_Z { a: 4 }); string_println(int32_to_string(p.a) + int32_to_string(q.a)) }\n", "13\n"),
         ("tuple-struct-vs-user-struct", "struct Tuple2_int32_bool { k: int32 }\nfn main() { let t = (1, true); let u = Tuple2_int32_bool { k: 2 }; string_println(int32_to_string(t.0 + u.k)) }\n", "3\n"),
         ("closure-env-vs-user-struct", "struct closure_env_f_0 { k: int32 }\nfn main() { let z = 1; let f = |q: int32| q + z; let u = closure_env_f_0 { k: 2 }; string_println(int32_to_string(f(3) + u.k)) }\n", "6\n"),
@@ -301,7 +307,7 @@ impl Family for NamesFamily {
         "names"
     }
     fn serves(&self) -> &'static [&'static str] {
-        &["C19", "C02", "C04", "C14"]
+        &["C19", "C02", "C04", "C14", "C07"]
     }
     fn rule(&self) -> &'static str {
         "95 hostile identifiers (Go keywords that goml allows, predeclared identifiers, runtime helper names, the builtins expanded at their call sites, compiler temporaries, generated type/helper names, spellings of the compiler's own type representation, the entry point's names, mangling look-alikes such as a__0) x 20 roles (a variant of a generic enum of an imported package with one instance; a trait method reached by path, by dot, through a bound and through a dyn value; a fn called from a closure that captures a function-typed local, fn / struct / variant of an imported package (these through whole-program compilation and through build + link), fn, param, local, pattern variable, closure parameter, struct, field, enum, variant, trait, method, type parameter, fn next to temporaries, fn called from a closure) plus 34 collision witnesses for generated names (10 of them programs that name their own entry point: called as a branch / function / arm result, in a let, as a statement, in a closure, in a tuple, passed or bound as a value, spawned) (5 for the names of generic instances, 3 for types spelled like a renamed local), plus 33 programs declaring two entities of one name in one namespace (5 of them foreign functions under the name of a builtin) (functions, types, traits, parameters of functions/methods/impl methods, variants, fields, extern vs fn, methods of one impl, one binder twice in a tuple / nested / constructor / struct pattern or in a closure's parameter list) that must be rejected, plus 29 programs of nested matches on two enum-typed variables (every word of length <= 4 over {x, y} beginning with x as the scrutinees from the outside in; the innermost level also inside a closure called at once) and 7 programs in which re-matches of the variable stand next to each other inside an arm of a match on it (with a match on the other variable, an if or a closure between or around them), and 364 programs with a local spelled field0..field27, as the last of 1..13 parameters of a function whose body is a struct literal written in another order than declared (whose field values the compiler names); whose Go type switches rebind the scrutinee's identifier inside their cases; oracle: emitted Go passes the Go checker and prints exactly what the twin with a benign identifier prints (= the hard-wired expected output). non-trivial = cases whose hostile name survives into the Go text unescaped or mangled; distinct = distinct source text"
@@ -429,6 +435,7 @@ impl Family for NamesFamily {
             }
         }
         rep.nontrivial_key = Some(text.clone());
+        let about_instances = case["kind"] == "witness" && case["name"].as_str().is_some_and(|n| n.contains("instance"));
         // a project of several packages is also built package by package and linked
         let pipelines: Vec<&str> = if text.contains("//// FILE ") { vec!["whole-program", "build+link"] } else { vec!["whole-program"] };
         let mut whole_ok = false;
@@ -446,6 +453,10 @@ impl Family for NamesFamily {
                     rep.tag("agree");
                 } else {
                     rep.tag("disagree");
+                    if about_instances {
+                        // two instances of a generic that share a definition: also what C07 rules out
+                        rep.findings.push(Finding { property: "C07", class: "names.behaviour-differs".into(), site: site.clone(), detail: format!("expected {:?} got {:?}/{}", expected, lossy(&o.stdout), end_tag(&o.end)), replay: replay.clone() });
+                    }
                     rep.findings.push(Finding {
                         property: "C19",
                         class: "names.behaviour-differs".into(),
@@ -466,7 +477,7 @@ impl Family for NamesFamily {
                     rep.outcome = Some(format!("rejected:{}", msg));
                 } else {
                     let props: &[&'static str] = if class == "compile.panic" || class == "gopp.panic" { &["C19", "C04"] } else { &["C19", "C02"] };
-                    for p in props {
+                    for p in props.iter().chain(if about_instances { ["C07"].iter() } else { [].iter() }) {
                         rep.findings.push(Finding { property: p, class: class.clone(), site: site.clone(), detail: msg.clone(), replay: replay.clone() });
                     }
                     // whole-program compilation gave a valid program: the two ways to compile the project differ
